@@ -59,8 +59,8 @@ class C05(Property):
             "defaulting, job pipelines) run on the real StreamFlowExecutor under the default asyncio order and 3 (quick) / 10 (thorough) "
             "PRNG interleavings each (job completion order included). Every run's per-port {tag: value} map read from token_list must "
             "equal the Lean denotation `den` of the workflow (driver), whose executable well-formedness hypotheses (wfStruct, wfDyn) must "
-            "hold; all runs of a workflow must agree with each other (oracle). Non-trivial = workflow with >= 3 nodes and a port with "
-            ">= 2 tokens.")
+            "hold; all runs of a workflow must agree with each other (oracle). Non-trivial = workflow with >= 3 nodes and >= 5 data "
+            "tokens in total.")
     trusted_base = [
         "hand-written denotational model lean/SFV/Model/Net.lean (per step class what it emits as a function of its inputs) compared "
         "with the real engine on every generated workflow and schedule",
@@ -82,7 +82,7 @@ class C05(Property):
     ]
     quick_budget_s = 240
     thorough_budget_s = 1500
-    min_nontrivial = 20
+    min_nontrivial = 10
 
     def _plan(self, ctx: Ctx):
         n, k = (600, 10) if ctx.tier == "thorough" else (60, 3)
@@ -103,9 +103,9 @@ class C05(Property):
             seeds = [rng.randrange(1 << 30) for _ in range(k)]
             runs = wfcheck.run_schedules(spec, seeds, ctx.scratch, timeout=30.0)
             den = wfgen.py_den(spec)
-            multi = any(len(v) >= 2 for v in den.values())
-            key = ("wf", json.dumps(spec, sort_keys=True)) if len(spec["nodes"]) >= 3 and multi else None
-            ctx.case({"spec": spec, "schedules": len(runs), "tokens": sum(len(v) for v in den.values())}, key, wfcheck.spec_bucket(spec))
+            ntok = sum(len(v) for v in den.values())
+            key = ("wf", json.dumps(spec, sort_keys=True)) if len(spec["nodes"]) >= 3 and ntok >= 5 else None
+            ctx.case({"spec": spec, "schedules": len(runs), "tokens": ntok}, key, wfcheck.spec_bucket(spec))
             ctx.count("runs", len(runs))
             for fkey, detail, seeds_ in compare_runs(spec, runs):
                 ctx.fail(fkey, detail, self._shrunk(ctx, spec, seeds_, fkey))
